@@ -144,7 +144,9 @@ Flex(name, actv, mn, mx, mag, combo, dir) ==
 Feats == {"base", "end", "params3", "flags0", "flags63", "flags_lock", "ramp2", "ramp_curve", "ramp_edges",
           "edges_only", "tag", "tag_name_only", "dist", "rel", "timing", "timing_locked", "absp", "absp_wide", "abss", "flex",
           "flex_combo", "flex_range", "dcurve", "pitchyaw", "odd_name", "gesture_dur", "loops", "cc_slave",
-          "cc_disabled_combined", "cc_token", "cc_flags"}
+          "cc_disabled_combined", "cc_token", "cc_flags",
+          \* single flag bits, one edge only, several optional blocks at once
+          "flag1", "flag2", "flag4", "flag16", "flag32", "right_edge", "all_tags", "tag_flex", "all"}
 S1 == <<"0.25", "1.0", "DEFAULT", "DEFAULT">>
 S2 == <<"0.75", "0.2", "DEFAULT", "DEFAULT">>
 S3 == <<"1.5", "0.0", "EASE_IN", "HOLD">>
@@ -181,15 +183,46 @@ Vary(e, f) ==
       [] f = "cc_disabled_combined" -> IF e.type = "Speak" THEN [e EXCEPT !.cc_type = "Disabled", !.combined = TRUE] ELSE e
       [] f = "cc_token" -> IF e.type = "Speak" THEN [e EXCEPT !.cc_token = "tok.en"] ELSE e
       [] f = "cc_flags" -> IF e.type = "Speak" THEN [e EXCEPT !.gender = TRUE, !.noatten = TRUE, !.combined = TRUE] ELSE e
+      [] f = "flag1" -> [e EXCEPT !.flags = 9]
+      [] f = "flag2" -> [e EXCEPT !.flags = 2]
+      [] f = "flag4" -> [e EXCEPT !.flags = 12]
+      [] f = "flag16" -> [e EXCEPT !.flags = 24]
+      [] f = "flag32" -> [e EXCEPT !.flags = 40]
+      [] f = "right_edge" -> [e EXCEPT !.ramp = [ramp |-> <<S2>>, left |-> NoEdge, right |-> <<TRUE, "0.25", "HOLD", "EASE_IN">>]]
+      [] f = "all_tags" -> [e EXCEPT !.rel = <<<<"r1", "0.2">>>>, !.timing = <<<<"t1", "1.0", FALSE>>>>,
+                                     !.absp = <<<<"p1", "0.5">>>>, !.abss = <<<<"s1", "0.25">>, <<"s2", "1.0">>>>]
+      [] f = "tag_flex" -> [e EXCEPT !.tag = <<"a_tag", "wav">>, !.end = "2.5",
+                                     !.flex = <<Flex("lid_raiser", TRUE, "0.0", "1.0", <<S1>>, FALSE, <<>>)>>]
+      [] OTHER -> e
+\* every optional block of an event at once (only what the format can hold), in the order given
+RECURSIVE VaryAll(_, _, _)
+VaryAll(e, fs, k) == IF k > Len(fs) THEN e ELSE VaryAll(Vary(e, fs[k]), fs, k + 1)
+AllBin == <<"end", "params3", "flags63", "ramp2", "tag", "dist", "all_tags", "flex_combo", "gesture_dur", "loops", "cc_token", "cc_flags">>
+AllText == <<"end", "params3", "flags63", "ramp_edges", "tag", "dist", "all_tags", "timing_locked", "pitchyaw", "gesture_dur", "loops", "cc_token", "cc_flags">>
 SceneOf(events, actors) ==
     [events |-> events, actors |-> actors, ramp |-> Curve0, ignore |-> FALSE, crc |-> "0", map |-> "", fps |-> 60,
      snap |-> FALSE, scale |-> <<>>, zoom |-> <<>>]
 ActorOf(name, actv, model, chans) == [name |-> name, active |-> actv, model |-> model, channels |-> chans]
 ChanOf(name, actv, events) == [name |-> name, active |-> actv, events |-> events]
 \* features that only exist in one of the two scene formats are varied there
-TextOnly == {"timing_locked", "dcurve", "pitchyaw", "ramp_edges", "edges_only"}
+TextOnly == {"timing_locked", "dcurve", "pitchyaw", "ramp_edges", "edges_only", "right_edge"}
+\* the Speak switches independently of one another
+SpeakProduct ==
+    {[Ev("Speak") EXCEPT !.cc_type = ct, !.cc_token = tok, !.combined = cb /\ ct # "Disabled", !.gender = g, !.noatten = na] :
+        ct \in {"Master", "Slave", "Disabled"}, tok \in {"", "tok.en"}, cb \in BOOLEAN, g \in BOOLEAN, na \in BOOLEAN}
 SceneCases(fmt) ==
-    {[feat |-> f, v |-> SceneOf(<<Vary(Ev(t), f)>>, <<>>)] : t \in EventTypes, f \in Feats}
+    {[feat |-> f, v |-> SceneOf(<<IF f = "all" THEN VaryAll(Ev(t), IF fmt = "vcd" THEN AllText ELSE AllBin, 1) ELSE Vary(Ev(t), f)>>, <<>>)] :
+        t \in EventTypes, f \in Feats}
+    \cup {[feat |-> "speak", v |-> SceneOf(<<>>, <<ActorOf("a", TRUE, "", <<ChanOf("c", TRUE, <<e>>)>>)>>)] : e \in SpeakProduct}
+    \* scene-level switches independently; actor / channel activity independently
+    \cup {[feat |-> "scene", v |-> [SceneOf(<<Ev("Section")>>, <<ActorOf("a", aa, "", <<ChanOf("c", ca, <<Ev("LookAt")>>)>>)>>)
+                                     EXCEPT !.ignore = ig, !.ramp = IF rp THEN [ramp |-> <<S1, S2>>, left |-> NoEdge, right |-> NoEdge] ELSE Curve0]] :
+            aa \in BOOLEAN, ca \in BOOLEAN, ig \in BOOLEAN, rp \in BOOLEAN}
+    \cup (IF fmt # "vcd" THEN {} ELSE
+          {[feat |-> "scene", v |-> [SceneOf(<<Ev("Section")>>, <<ActorOf("a", TRUE, md, <<>>)>>)
+                                     EXCEPT !.snap = sn, !.ignore = ig, !.map = mp, !.scale = sc]] :
+            md \in {"", "models/alyx.mdl"}, sn \in BOOLEAN, ig \in BOOLEAN, mp \in {"", "maps/d1_trainstation_01.vmf"},
+            sc \in {<<>>, <<<<"CChoreoView", "100">>>>}})
     \cup {[feat |-> "scene", v |-> s] : s \in
         {SceneOf(<<>>, <<>>),
          SceneOf(<<Ev("Section")>>, <<ActorOf("an actor", TRUE, "", <<ChanOf("first", TRUE, <<Ev("LookAt"), Vary(Ev("Speak"), "end")>>),
@@ -204,25 +237,30 @@ SceneCases(fmt) ==
                     [SceneOf(<<>>, <<>>) EXCEPT !.crc = "305419896", !.ignore = TRUE]})}
 
 \* ---- soundscripts
-Snd(sounds, vol, chan, lvl, pitch, v2, stacks) ==
+Snd(sounds, vol, chan, lvl, pitch, force, stacks) ==
     [name |-> "Weapon_Pistol.Single", sounds |-> sounds, volume |-> vol, channel |-> chan, level |-> lvl, pitch |-> pitch,
-     v2 |-> v2, stacks |-> stacks]
+     force |-> force, stacks |-> stacks]
 NoStacks == <<<<>>, <<>>, <<>>>>
 Leaf(d, k, v) == <<d, k, v, FALSE>>
 Block(d, k) == <<d, k, "", TRUE>>
+SndSounds == {<<>>, <<"weapons/pistol/fire1.wav">>, <<")weapons/a.wav", "*#music/b c.mp3">>}
+\* each of the three operator stacks is there or not, independently of the others and of force_v2
+StackStart == {<<>>, <<Block(0, "mixer"), Leaf(1, "mixgroup", "Weapons")>>}
+StackUpdate == {<<>>, <<Leaf(0, "import_stack", "update_default")>>}
+StackStop == {<<>>, <<Block(0, "stop"), Block(1, "inner"), Leaf(2, "a", "b c"), Leaf(0, "z", "1")>>}
 SndCases ==
+    \* the value forms (single / range, number / constant) of volume, level, pitch and the channel
     {[feat |-> IF vol[1] # vol[2] \/ lvl[1] # lvl[2] \/ pitch[1] # pitch[2] THEN "range" ELSE "plain",
-      v |-> Snd(snd, vol, chan, lvl, pitch, st[1], st[2])] :
-        snd \in {<<>>, <<"weapons/pistol/fire1.wav">>, <<")weapons/a.wav", "*#music/b c.mp3">>},
+      v |-> Snd(snd, vol, chan, lvl, pitch, FALSE, NoStacks)] :
+        snd \in SndSounds,
         vol \in {<<"VOL_NORM", "VOL_NORM">>, <<"1.0", "1.0">>, <<"0.5", "0.5">>, <<"0.25", "0.75">>, <<"0.5", "VOL_NORM">>},
         chan \in {"CHAN_AUTO", "CHAN_WEAPON", "CHAN_VOICE2", "CHAN_STATIC", "6"},
         lvl \in {<<"SNDLVL_NORM", "SNDLVL_NORM">>, <<"SNDLVL_GUNFIRE", "SNDLVL_GUNFIRE">>, <<"82.5", "82.5">>, <<"SNDLVL_80dB", "90.0">>},
-        pitch \in {<<"PITCH_NORM", "PITCH_NORM">>, <<"100.0", "100.0">>, <<"PITCH_LOW", "PITCH_LOW">>, <<"98.0", "105.0">>, <<"PITCH_LOW", "PITCH_HIGH">>},
-        st \in {<<FALSE, NoStacks>>, <<TRUE, NoStacks>>,
-                <<TRUE, <<<<Leaf(0, "import_stack", "CS_update_start")>>, <<>>, <<>>>>>>,
-                <<TRUE, <<<<Block(0, "mixer"), Leaf(1, "mixgroup", "Weapons")>>,
-                          <<Leaf(0, "import_stack", "update_default")>>,
-                          <<Block(0, "stop"), Block(1, "inner"), Leaf(2, "a", "b c"), Leaf(0, "z", "1")>>>>>>}}
+        pitch \in {<<"PITCH_NORM", "PITCH_NORM">>, <<"100.0", "100.0">>, <<"PITCH_LOW", "PITCH_LOW">>, <<"98.0", "105.0">>, <<"PITCH_LOW", "PITCH_HIGH">>}}
+    \cup
+    {[feat |-> "stacks", v |-> Snd(snd, vp[1], "CHAN_AUTO", <<"SNDLVL_NORM", "SNDLVL_NORM">>, vp[2], force, <<a, b, c>>)] :
+        snd \in SndSounds, vp \in {<<<<"VOL_NORM", "VOL_NORM">>, <<"PITCH_NORM", "PITCH_NORM">>>>, <<<<"0.5", "0.5">>, <<"95.0", "110.0">>>>},
+        force \in BOOLEAN, a \in StackStart, b \in StackUpdate, c \in StackStop}
 
 \* ---- materials
 VmtCases ==
@@ -255,7 +293,8 @@ PcfCases ==
         opts \in {<<>>, <<Opt("max_particles", "INTEGER", "5")>>, <<Opt("Sort Particles", "BOOL", "0"), Opt("use animation rate as FPS", "BOOL", "1")>>,
                   <<Opt("material", "STRING", "particle/fire.vmt"), Opt("radius", "FLOAT", "0.5"), Opt("sort", "BOOL", "1"),
                     Opt("color", "COLOR", "255 128 0 255"), Opt("bounds", "VEC3", "1 2.5 -3")>>},
-        ops \in {NoOps, <<<<OneOp>>, <<>>, <<>>, <<>>, <<>>, <<>>>>,
+        ops \in {[k \in 1..6 |-> IF k = j THEN <<Op("only", "kind " \o ToString(j), <<Opt("x", "INTEGER", ToString(j))>>)>> ELSE <<>>] : j \in 1..6}
+               \cup {NoOps, <<<<OneOp>>, <<>>, <<>>, <<>>, <<>>, <<>>>>,
                  <<<<OneOp>>, <<Op("fade", "Alpha Fade Out Random", <<>>)>>, <<Op("i", "Position Within Sphere Random", <<Opt("distance_max", "FLOAT", "8")>>)>>,
                    <<Op("e", "emit_continuously", <<>>)>>, <<Op("f", "random force", <<>>)>>, <<Op("c", "Constrain distance to control point", <<>>)>>>>,
                  <<<<>>, <<Op("same", "x", <<>>), Op("same", "y", <<>>)>>, <<>>, <<>>, <<>>, <<>>>>},
